@@ -31,7 +31,7 @@ ANCHOR = {
     "Case": {"case"}, "Default": {"default"}, "Return": {"return"}, "Break": {"break"},
     "Continue": {"continue"}, "Goto": {"goto"}, "CompoundLiteral": {"("}, "Cast": {"("},
     "StaticAssert": {"_Static_assert"}, "Enum": {"enum"}, "Alignas": {"_Alignas"},
-    "Compound": {"{", "pragma", "("},  # a pragma-prefixed statement is wrapped at its first pragma
+    "Compound": {"{", "("},  # or a pragma token: a pragma-prefixed statement is wrapped at its first pragma
 }
 
 
@@ -107,7 +107,13 @@ def check_ast(ast, lay, fails, text, counts):
         elif cls == "Constant":
             want = None  # checked by prefix below (adjacent literals are concatenated)
             v = node.value
-            if not (t.value == v or (node.type == "string" and v.startswith(t.value[:-1]))):
+            def _body(lit):
+                return lit[lit.index('"') + 1:] if '"' in lit else lit
+
+            # adjacent string literals are concatenated (the result may carry a
+            # later literal's prefix): the coordinate is the first literal's
+            if not (t.value == v or (node.type == "string" and '"' in t.value
+                                     and _body(v).startswith(_body(t.value)[:-1]))):
                 fails.append(("Constant:wrong-token", {"text": text, "filename": FILENAME}, f"{c}: token {t.value!r} does not spell {v!r}"))
         elif cls == "TypeDecl" and node.declname:
             want = node.declname
@@ -118,6 +124,8 @@ def check_ast(ast, lay, fails, text, counts):
         anchor = ANCHOR.get(cls)
         if cls == "UnaryOp" and node.op in ("sizeof", "_Alignof"):
             anchor = {node.op}
+        if cls == "Compound" and t.origin in ("pragma", "pragmastr"):
+            anchor = None  # a pragma-prefixed statement is wrapped at its first pragma (word or text)
         if anchor is not None and t.value not in anchor:
             fails.append((f"{cls}:outside-construct", {"text": text, "filename": FILENAME},
                           f"{c}: token {t.value!r} is not the token that opens a {cls} ({sorted(anchor)})"))
